@@ -475,7 +475,23 @@ func runImpl(c *Ctx, s *Session, off bool) ([]seg, string) {
 		}
 		c.Eval()
 		cancel := st.SetContext(context.Background(), 0) // a live, cancellable context per input, as repl.EvalOne does
-		res, pan := evalProtected(st, prog)
+		var prog2 any = prog
+		if perr := func() (msg string) { // macros are defined and expanded before evaluation, as repl.EvalOne does
+			defer func() {
+				if r := recover(); r != nil {
+					msg = fmt.Sprint(r)
+				}
+			}()
+			st.DefineMacros(prog)
+			if st.NumMacros() > 0 {
+				prog2 = st.ExpandMacros(prog)
+			}
+			return ""
+		}(); perr != "" {
+			cancel()
+			return nil, fmt.Sprintf("panic on %q (macro expansion): %s", src, perr)
+		}
+		res, pan := evalProtected(st, prog2)
 		cancel()
 		if pan != "" {
 			return nil, fmt.Sprintf("panic on %q: %s", src, pan)
@@ -617,6 +633,25 @@ func (s *Session) rebinds(upTo int) bool {
 	return false
 }
 
+// constParamClash: some definition has a constant-named parameter P and the top level bound the constant P before the input
+// (a call remembered before that binding hides the "attempt to change constant" error of the same call afterwards)
+func (s *Session) constParamClash(upTo int) bool {
+	bound := map[string]bool{}
+	for i := 0; i < upTo && i < len(s.Inputs); i++ {
+		if in := s.Inputs[i]; in.K == 'A' && constantName(in.X) {
+			bound[in.X] = true
+		}
+	}
+	for _, d := range s.Defs {
+		for _, p := range d.Params {
+			if constantName(p) && bound[p] {
+				return true
+			}
+		}
+	}
+	return false
+}
+
 func (s *Session) text() string {
 	parts := make([]string, len(s.Inputs))
 	for i, in := range s.Inputs {
@@ -693,6 +728,8 @@ func (c *Ctx2) session(s *Session) {
 			sig = "log-not-replayed"
 		case s.collisionSig() != "":
 			sig = s.collisionSig()
+		case s.Tag == "finding:constant-parameter-then-global" && s.constParamClash(i) && (on[i].R == "E") != (offr[i].R == "E"):
+			sig = "stale-hit:constant-parameter-then-global"
 		case closed:
 			sig = "closed-fragment-differs"
 		case s.rebinds(i):
@@ -707,7 +744,8 @@ func (c *Ctx2) session(s *Session) {
 		// the two known findings are recorded 40 times each (every further one is only counted), so that the
 		// failure list of common.Ctx (capped) always has room for anything else
 		c.seen[sig]++
-		known := sig == "log-not-replayed" || sig == "stale-hit:redefined-callee" ||
+		known := sig == "log-not-replayed" || sig == "stale-hit:redefined-callee" || sig == "stale-hit:function-name-via-self" ||
+			sig == "stale-hit:constant-parameter-then-global" ||
 			(strings.HasPrefix(sig, "stale-hit:printed-text-collision:") && !strings.HasSuffix(sig, ":unclassified"))
 		if !known || c.seen[sig] <= 40 {
 			c.Fail(sig, s.text(), detail)
@@ -767,10 +805,23 @@ func corpus() []*Session {
 	mk("keycollision:statement-starts-with-prefix-operator", func(s *Session) {
 		s.Inputs = []*Expr{s.fn("f", []string{"p"}, raw("(if p {1} else {2})+3")), raw("f(true)"), s.fn("g", []string{"p"}, raw("if p {1} else {2}; +3")), raw("g(true)")}
 	})
+	// helper closures called during macro expansion read the macro's parameters: one result per expansion (direct oracle only)
+	mk("mech:macro-helper-reads-parameter", func(s *Session) {
+		s.Inputs = []*Expr{raw("sq = macro(X) {get = () => X; quote(unquote(get()) * unquote(get()))}"), raw("println(sq(3))"), raw("println(sq(4))"), raw("println(sq(2+3))"),
+			raw("println(sq(3), sq(6))"), raw("m2 = macro(x, Y) {gx = func(){x}; gy = func(){Y}; quote(unquote(gx()) - unquote(gy()))}"), raw("println(m2(9,1), m2(1,9))"), raw("println(m2(5,5))")}
+	})
 	// a sliced small map whose dropped pair holds a big array must still be usable as a cache key (direct oracle only)
 	mk("mech:sliced-small-map-as-key", func(s *Session) {
 		s.Inputs = []*Expr{raw(`m = {"a":1,"b":2,"c":[1,2,3,4,5,6,7,8,9]}`), raw(`f = func(x){println("in f", x); len(x)}`), raw("f(m[0:2])"), raw("f(m[0:2])"),
 			raw(`f({"a":1,"b":2})`), raw("a = [1,2,func(){1}]"), raw("f(a[0:2])"), raw("f([1,2])"), raw("f(rest(m))")}
+	})
+	// known finding: the function's name is not in the key but visible through self
+	mk("keycollision:function-name-via-self", func(s *Session) {
+		s.Inputs = []*Expr{s.fn("f", nil, raw("print(self)")), raw("f()"), s.fn("g", nil, raw("print(self)")), raw("g()"), raw("f()")}
+	})
+	// known finding: a call remembered before a global constant named like its parameter exists hides the later clash
+	mk("finding:constant-parameter-then-global", func(s *Session) {
+		s.Inputs = []*Expr{asg("f", s.fn("", []string{"N"}, add(v("N"), li(1)))), cn("f", li(1)), asg("N", li(5)), cn("f", li(1)), cn("f", li(2))}
 	})
 	// counted loops over an upper-case variable read by remembered functions (direct oracle only)
 	mk("mech:loop-over-constant-named-variable", func(s *Session) {
@@ -1619,6 +1670,12 @@ func (c *Ctx2) interruptSession() *Session {
 func (s *Session) collisionSig() string {
 	for i, a := range s.Defs {
 		for _, b := range s.Defs[i+1:] {
+			// same text, different NAME (the name is deliberately not part of the key), and the body can see its own
+			// function value through self: the name is observable
+			if a.Key == b.Key && a.Name != b.Name && a.Body.src(s) == b.Body.src(s) && strings.Contains(a.Body.src(s), "self") &&
+				s.Tag == "keycollision:function-name-via-self" {
+				return "stale-hit:function-name-via-self"
+			}
 			if a.Key == b.Key && (a.Body.src(s) != b.Body.src(s) || strings.Join(a.Params, ",") != strings.Join(b.Params, ",")) {
 				if strings.HasPrefix(s.Tag, "keycollision:") {
 					return "stale-hit:printed-text-collision:" + strings.TrimPrefix(s.Tag, "keycollision:")
@@ -1837,6 +1894,51 @@ func (c *Ctx2) smallContainerSession() *Session {
 	return s
 }
 
+// function calls made DURING macro expansion: helpers defined in macro bodies that read the macro's parameters (named like
+// constants or not), several expansions with different arguments in one input and across inputs. Macros are outside the
+// model's language: direct oracle only (the API runs now define and expand macros as repl.EvalOne does).
+func (c *Ctx2) macroSession() *Session {
+	s := &Session{Tag: "random-macro"}
+	r := c.R
+	p := []string{"X", "x", "ARG", "N1"}[r.Intn(4)]
+	var def string
+	switch r.Intn(5) {
+	case 0:
+		def = "sq = macro(" + p + ") {get = () => " + p + "; quote(unquote(get()) * unquote(get()))}"
+	case 1:
+		def = "sq = macro(" + p + ") {get = func(){" + p + "}; quote(unquote(get()) + 1)}"
+	case 2:
+		def = "sq = macro(" + p + ") {func get(){" + p + "}; tw = func(){get()}; quote(unquote(tw()) * 2)}"
+	case 3:
+		def = "sq = macro(" + p + ") {id = func(q){q}; quote(unquote(id(" + p + ")) * unquote(id(" + p + ")))}"
+	default:
+		def = "sq = macro(" + p + ", Y) {get = () => " + p + "; gy = () => Y; quote(unquote(get()) - unquote(gy()))}"
+	}
+	two := strings.Contains(def, ", Y)")
+	s.Inputs = append(s.Inputs, raw(def))
+	argPool := []string{"3", "4", "2+3", "a", "a+1", "7"}
+	s.Inputs = append(s.Inputs, raw("a = 10"))
+	use := func() string {
+		if two {
+			return "sq(" + argPool[r.Intn(len(argPool))] + ", " + argPool[r.Intn(len(argPool))] + ")"
+		}
+		return "sq(" + argPool[r.Intn(len(argPool))] + ")"
+	}
+	for i, n := 0, 3+r.Intn(4); i < n; i++ {
+		switch r.Intn(4) {
+		case 0:
+			s.Inputs = append(s.Inputs, raw("println("+use()+", "+use()+")"))
+		case 1:
+			s.Inputs = append(s.Inputs, raw("f = func(){"+use()+"}"), raw("f()"), raw("f()"))
+		case 2:
+			s.Inputs = append(s.Inputs, raw("a = a + 1"), raw("println("+use()+")"))
+		default:
+			s.Inputs = append(s.Inputs, raw("println("+use()+")"))
+		}
+	}
+	return s
+}
+
 func runC04(c0 *Ctx) {
 	c := &Ctx2{Ctx: c0, seen: map[string]int{}}
 	log.SetOutput(io.Discard)
@@ -1853,7 +1955,7 @@ func runC04(c0 *Ctx) {
 		"oracle: no call of such a writer or of its callers may appear in the cache); each run cache on and cache off on the implementation (direct oracle) and on the extracted model. " +
 		"non-trivial = distinct session that ends with a non-empty cache"
 	// every identifier the generator uses must be free in a fresh state (not an extension, not a predefined function)
-	for _, name := range []string{"f", "g", "h", "id", "mk", "a", "b", "c", "d", "w", "k", "x", "y", "t", "n", "m", "p", "q", "r", "s", "X", "N", "F", "fib", "f2", "k4", "v", "nx", "tw", "tt", "m", "vf", "wy", "A", "pick", "fa", "fb", "slow", "sc", "fr", "K", "LEVEL", "LIMIT", "base", "fm", "fk", "m4", "a8"} {
+	for _, name := range []string{"f", "g", "h", "id", "mk", "a", "b", "c", "d", "w", "k", "x", "y", "t", "n", "m", "p", "q", "r", "s", "X", "N", "F", "fib", "f2", "k4", "v", "nx", "tw", "tt", "m", "vf", "wy", "A", "pick", "fa", "fb", "slow", "sc", "fr", "K", "LEVEL", "LIMIT", "base", "fm", "fk", "m4", "a8", "sq", "get", "gy", "ARG", "N1", "Y"} {
 		st := eval.NewState()
 		st.Out, st.LogOut = io.Discard, io.Discard
 		res, _ := evalProtected(st, parser.New(lexer.New(name)).ParseProgram())
@@ -1890,7 +1992,9 @@ func runC04(c0 *Ctx) {
 			case 2:
 				c.session(c.impureResultSession())
 			default:
-				switch (i / 40) % 5 {
+				switch (i / 40) % 6 {
+				case 5:
+					c.session(c.macroSession())
 				case 4:
 					c.session(c.smallContainerSession())
 				case 0:
